@@ -11,6 +11,7 @@ from vf.common import Plan
 from vf.pyvc.engine import World, T, Int, Bool, Float, RecT, SeqT, TupleT, Rec, SeqV, PyList, FloatV, fresh, Unsupp, RaiseExc
 from vf.pyvc.contract import FnContract, Case, LoopSpec, obligations_for, lemma
 from vf.pyvc import spec as S
+from vf.pyvc.ext import with_standin
 from vf.pyvc.spec import And, Or, Not, Implies, If
 
 SHOTS = "pennylane/core/shots.py"
@@ -500,27 +501,329 @@ def build(tier, seed):
                                                           for x in (o.self.shot_vector.items if isinstance(o.self.shot_vector, PyList) else o.self.shot_vector)])},
                      must_return=lambda o: And(*[trunc_mul(x.shots if isinstance(x, Rec) else x[0], o.scalar) >= 1
                                                  for x in (o.self.shot_vector.items if isinstance(o.self.shot_vector, PyList) else o.self.shot_vector)]))]))
-    # vectors of SYMBOLIC length: the scaled vector is the pointwise map (spec function SCALED, used through its defining property and
-    # one instance of sequence extensionality), the constructor contract does the rest
-    def wf_valid(sh):
-        """representation invariant with validity as the snoc-defined predicate VALID (what the constructor contracts establish)"""
-        if isinstance(sh, Rec):
-            sv = sh.shot_vector
-            return And(valid_seq(sv), VALID(sv.term), slen(sv) >= 1, sh.total_shots == SUM(EXP_S(sv.term)), sh._frozen)
-        return wf(sh)
-    for meth in ("__mul__", "__rmul__"):
-        for lab, kt in (("int", Int), ("float", Float)):
-            contracts.append(FnContract(w, f"Shots.{meth}", [
-                Case(f"finite[any length]*{lab}", {"self": FiniteShots, "scalar": kt}, requires=lambda a: wf(a.self),
-                     ensures=lambda o, r, nw: And(seq_eq(expand(r.shot_vector), expand_sc_of(scaled_of(o.self.shot_vector, o.scalar))),
-                                                  r.total_shots == total(expand_sc_of(scaled_of(o.self.shot_vector, o.scalar)))),
-                     axioms=mul_axioms, raises={"ValueError": some_below_one}, must_return=lambda o: Not(some_below_one(o)))]))
     for lab, kt in (("int", Int), ("float", Float)):
         contracts.append(FnContract(w, "Shots.__mul__", [
             Case(f"analytic*{lab}", {"self": AnalyticShots, "scalar": kt}, ensures=lambda o, r, nw: r is nw.self)]))
     contracts.append(FnContract(w, "Shots.__mul__", [
         Case("finite*str", {"self": FiniteShots, "scalar": T("const", "2")}, requires=lambda a: wf(a.self),
              raises={"TypeError": lambda o: True})]))
+
+    # ================================================================================================================================
+    # deepening: constructor on sequences of ShotCopies, scaling of vectors of SYMBOLIC length, num_copies, __hash__
+    # ================================================================================================================================
+    def link_valid(ctx, seqv):
+        """VALID (snoc-defined) and elementwise validity are the same predicate: both directions are induction lemmas below
+        (valid-elementwise/step, elementwise-valid/base+step); the instance for this sequence is assumed on every path"""
+        ctx.assume(VALID(seqv.term) == valid_seq(seqv))
+
+    contracts.append(FnContract(w, "Shots.__init__", [
+        Case("shots:tuple-of-ShotCopies", {"self": fresh_self(), "shots": SeqT(SC, tuple=True)},
+             native_call=lambda mod, args: (args.__setitem__("self", mod.Shots(tuple(mod.ShotCopies(*x) for x in args["shots"]))), None)[1],
+             ghost=lambda ctx, a: link_valid(ctx, a.shots), requires=lambda a: slen(a.shots) >= 1,
+             ensures=lambda o, r, nw: And(seq_eq(expand(nw.self.shot_vector), expand(o.shots)), nw.self.total_shots == total(expand(o.shots)),
+                                          valid_out(nw.self.shot_vector), slen(nw.self.shot_vector) >= 1, nw.self._frozen),
+             raises={"ValueError": lambda o: Not(valid_out(o.shots))}, must_return=lambda o: valid_out(o.shots))]))
+
+    # ---- a second world in which the constructor is used through that contract ----------------------------------------------------
+    def mc_init(it, args, kwargs):
+        self_ = args[0]
+        shots = args[1] if len(args) > 1 else kwargs.get("shots")
+        if not (isinstance(shots, SeqV) and shots.elem.kind == "rec"):
+            raise Unsupp("modular Shots.__init__ is only used for sequences of ShotCopies")
+        ctx = it.ctx
+        ctx.prove(S.to_z3(And(slen(shots) >= 1, Not(self_.f.get("_frozen", False)))), "pre-call:Shots.__init__")
+        if not ctx.branch(VALID(shots.term)):
+            raise RaiseExc("ValueError")
+        sv = fresh(ctx, SeqT(SC, tuple=True), "shot_vector")
+        tot = z3.Int(ctx.fresh_name("total_shots"))
+        ctx.assume(z3.And(EXP_S(sv.term) == EXP_S(shots.term), tot == SUM(EXP_S(shots.term)), VALID(sv.term), z3.Length(sv.term) >= 1))
+        self_.f["shot_vector"], self_.f["total_shots"], self_.f["_frozen"] = sv, tot, True
+        return None
+    w2 = World(SHOTS, classes={"ShotCopies": {"shots": Int, "copies": Int},
+                               "Shots": {"total_shots": Int, "shot_vector": SeqT(SC, tuple=True), "_frozen": Bool}},
+               functions=["valid_int", "valid_tuple"], extra_builtins={"math.is_abstract": lambda it, a, k: False},
+               modular={"Shots.__init__": mc_init})
+
+    SCALED_R = z3.Function("scaled_vector", z3.SeqSort(SCs), z3.RealSort(), z3.SeqSort(SCs))   # pointwise (int(shots*k), copies), snoc-defined
+    SCALED_I = z3.Function("scaled_vector_int", z3.SeqSort(SCs), z3.IntSort(), z3.SeqSort(SCs))
+    OKS_R = z3.Function("all_scaled_positive", z3.SeqSort(SCs), z3.RealSort(), z3.BoolSort())   # every int(shots*k) >= 1, snoc-defined
+    OKS_I = z3.Function("all_scaled_positive_int", z3.SeqSort(SCs), z3.IntSort(), z3.BoolSort())
+
+    def kparts(k):
+        """(SCALED, OKS, z3 scalar) for an int / float scalar value"""
+        if isinstance(k, FloatV):
+            return SCALED_R, OKS_R, k.t
+        return SCALED_I, OKS_I, S._t(k)
+
+    def scaled_defs(s, e, k):
+        F, OK, kk = kparts(k)
+        se = mks(trunc_mul(sh_s(e), k), cp_s(e))
+        empty = z3.Empty(s.sort())
+        return [F(empty, kk) == empty, F(z3.Concat(s, z3.Unit(e)), kk) == z3.Concat(F(s, kk), z3.Unit(se)),
+                OK(empty, kk), OK(z3.Concat(s, z3.Unit(e)), kk) == z3.And(OK(s, kk), trunc_mul(sh_s(e), k) >= 1)]
+
+    def scaled_vec(sv, k):
+        if isinstance(sv, SeqV):
+            F, OK, kk = kparts(k)
+            return F(sv.term, kk)
+        return [(trunc_mul(x[0], k), x[1]) for x in sv]
+
+    def all_scaled_ok(o):
+        sv, k = o.self.shot_vector, o.scalar
+        if isinstance(sv, SeqV):
+            F, OK, kk = kparts(k)
+            return OK(sv.term, kk)
+        return all(trunc_mul(x[0], k) >= 1 for x in sv)
+
+    def mul_inv(v):
+        sv = v.self.shot_vector.term
+        i = v.comp_i
+        F, OK, kk = kparts(v.scalar)
+        done = z3.Extract(sv, 0, i)
+        r = st(v.comp_r)
+        return And(r == F(done, kk), VALID(r) == OK(done, kk), i >= 0, i <= z3.Length(sv))
+
+    def mul_inv_ax(v):
+        sv = v.self.shot_vector.term
+        i = v.comp_i
+        out = [z3.Extract(sv, 0, 0) == z3.Empty(sv.sort()), VALID(z3.Empty(sv.sort()))]
+        for k in (i - 1, i):
+            out.append(snoc_slice(sv, k))
+            out.append(z3.Implies(z3.And(k >= 0, k < z3.Length(sv)), z3.And(*scaled_defs(z3.Extract(sv, 0, k), sv[k], v.scalar))))
+            out.append(z3.Implies(z3.And(k >= 0, k < z3.Length(sv)), z3.And(sh_s(sv[k]) >= 1, cp_s(sv[k]) >= 1)))     # instance of valid_seq(sv)
+        r = st(v.comp_r)
+        sn = split_snoc(r)
+        if sn is not None:
+            out += valid_def(sn[0], sn[1])
+        return out
+
+    def mul_post_ax(o, r, nw):
+        sv = o.self.shot_vector.term
+        return [z3.Extract(sv, 0, z3.Length(sv)) == sv]
+
+    def mul_ghost(ctx, a):
+        sv = a.self.shot_vector.term
+        ctx.assume(z3.Extract(sv, 0, z3.Length(sv)) == sv)
+        F, OK, kk = kparts(a.scalar)
+        ctx.assume(z3.And(F(z3.Empty(sv.sort()), kk) == z3.Empty(sv.sort()), OK(z3.Empty(sv.sort()), kk)))
+
+    def mul_post(o, r, nw):
+        return And(seq_eq(expand(r.shot_vector), expand_sc_of(scaled_vec(o.self.shot_vector, o.scalar))),
+                   r.total_shots == total(expand_sc_of(scaled_vec(o.self.shot_vector, o.scalar))))
+    for lab, kt in (("int", Int), ("float", Float)):
+        contracts.append(FnContract(w2, "Shots.__mul__", [
+            Case(f"finite[any length]*{lab}", {"self": FiniteShots, "scalar": kt}, requires=lambda a: wf(a.self), ghost=mul_ghost,
+                 loops={"comp0": LoopSpec(mul_inv, types={"comp_r": SeqT(SC)}, axioms=mul_inv_ax)},
+                 ensures=mul_post, axioms=mul_post_ax, raises={"ValueError": lambda o: Not(all_scaled_ok(o))}, must_return=all_scaled_ok)]))
+
+    # __rmul__ delegates: used through the contract of __mul__ just verified
+    def mc_mul(it, args, kwargs):
+        self_, k = args
+        ctx = it.ctx
+        if not (isinstance(k, FloatV) or S_is_int(k)):
+            raise RaiseExc("TypeError")
+        if self_.f["total_shots"] is None:
+            return self_
+        F, OK, kk = kparts(k)
+        if not ctx.branch(OK(self_.f["shot_vector"].term, kk)):
+            raise RaiseExc("ValueError")
+        sv = fresh(ctx, SeqT(SC, tuple=True), "scaled_shot_vector")
+        tot = z3.Int(ctx.fresh_name("scaled_total"))
+        E = EXP_S(F(self_.f["shot_vector"].term, kk))
+        ctx.assume(z3.And(EXP_S(sv.term) == E, tot == SUM(E)))
+        return Rec(w3.classes["Shots"], {"total_shots": tot, "shot_vector": sv, "_frozen": True})
+
+    def S_is_int(k):
+        return isinstance(k, int) or (isinstance(k, z3.ArithRef) and k.is_int())
+    w3 = World(SHOTS, classes={"ShotCopies": {"shots": Int, "copies": Int},
+                               "Shots": {"total_shots": Int, "shot_vector": SeqT(SC, tuple=True), "_frozen": Bool}},
+               functions=[], extra_builtins={"math.is_abstract": lambda it, a, k: False}, modular={"Shots.__mul__": mc_mul})
+    for lab, kt in (("int", Int), ("float", Float)):
+        contracts.append(FnContract(w3, "Shots.__rmul__", [
+            Case(f"finite[any length]*{lab}", {"self": FiniteShots, "scalar": kt}, requires=lambda a: wf(a.self),
+                 native_call=lambda mod, a: a["scalar"] * a["self"],
+                 ensures=mul_post, raises={"ValueError": lambda o: Not(all_scaled_ok(o))}, must_return=all_scaled_ok),
+            Case(f"analytic*{lab}", {"self": AnalyticShots, "scalar": kt}, ensures=lambda o, r, nw: r is nw.self)]))
+
+    # ---- constructor on sequences MIXING ints and (shots, copies) pairs, symbolic length --------------------------------------------
+    from vf.pyvc.ext import XWorld, XInterp
+    ItemDT = z3.Datatype("ShotsItem")
+    ItemDT.declare("mk_item", ("is_pair", z3.BoolSort()), ("first", z3.IntSort()), ("second", z3.IntSort()))
+    ItemS = ItemDT.create()
+    it_pair, it_a, it_b, mk_item = ItemS.accessor(0, 0), ItemS.accessor(0, 1), ItemS.accessor(0, 2), ItemS.constructor(0)
+
+    class MixedItem:
+        """an element that is EITHER an int OR a (shots, copies) pair; resolved (path split on the tag) when it is bound to a name"""
+
+        def __init__(self, term):
+            self.term = term
+
+    class ItemCodec:
+        sort = ItemS
+
+        @staticmethod
+        def box(world, v):
+            if isinstance(v, MixedItem):
+                return v.term
+            if isinstance(v, tuple) and len(v) == 2:
+                return mk_item(z3.BoolVal(True), S._t(v[0]), S._t(v[1]))
+            return mk_item(z3.BoolVal(False), S._t(v), z3.IntVal(1))
+
+        @staticmethod
+        def unbox(world, term):
+            return MixedItem(term)
+    ITEM = T("codec", ItemCodec)
+
+    class MInterp(XInterp):
+        def assign(self, t, v, env):
+            if isinstance(v, MixedItem):
+                v = (it_a(v.term), it_b(v.term)) if self.ctx.branch(it_pair(v.term)) else it_a(v.term)
+            return super().assign(t, v, env)
+
+        def b_all(self, args, kw, node):
+            v = args[0]
+            if isinstance(v, SeqV) and v.elem.kind == "bool":
+                return ALLB(v.term)          # all(s ++ [b]) == (all(s) and b), all([]) == True: the snoc-defined conjunction
+            return super().b_all(args, kw, node)
+    wm = XWorld(SHOTS, classes={"ShotCopies": {"shots": Int, "copies": Int},
+                                "Shots": {"total_shots": Int, "shot_vector": SeqT(SC, tuple=True), "_frozen": Bool}},
+                functions=["valid_int", "valid_tuple"], extra_builtins={"math.is_abstract": lambda it, a, k: False})
+
+    NORM = z3.Function("normalised_items", z3.SeqSort(ItemS), z3.SeqSort(PairS))      # ints become (s, 1): snoc-defined
+    OKI = z3.Function("all_items_valid", z3.SeqSort(ItemS), z3.BoolSort())            # every int > 0 / every pair component > 0: snoc-defined
+
+    def item_ok(e):
+        return z3.If(it_pair(e), z3.And(it_a(e) > 0, it_b(e) > 0), it_a(e) > 0)
+
+    def item_norm(e):
+        return z3.If(it_pair(e), mkp(it_a(e), it_b(e)), mkp(it_a(e), z3.IntVal(1)))
+
+    def item_defs(s, e):
+        empty = z3.Empty(s.sort())
+        return [NORM(empty) == z3.Empty(z3.SeqSort(PairS)), NORM(z3.Concat(s, z3.Unit(e))) == z3.Concat(NORM(s), z3.Unit(item_norm(e))),
+                OKI(empty), OKI(z3.Concat(s, z3.Unit(e))) == z3.And(OKI(s), item_ok(e))]
+
+    def mc_all_tuple_init_m(it, args, kwargs):
+        """the (verified) contract of __all_tuple_init__ with validity as the snoc-defined predicate on pairs"""
+        self_, shots = args
+        ctx = it.ctx
+        ctx.ghost["normalised"] = shots.term
+        ctx.prove(S.to_z3(And(slen(shots) >= 1, VALID_P(shots.term), Not(self_.f.get("_frozen", False)))), "pre-call:Shots.__all_tuple_init__")
+        sv = fresh(ctx, SeqT(SC, tuple=True), "shot_vector")
+        tot = z3.Int(ctx.fresh_name("total_shots"))
+        ctx.assume(z3.And(EXP_S(sv.term) == EXP_P(shots.term), tot == SUM(EXP_P(shots.term)), VALID(sv.term), z3.Length(sv.term) >= 1))
+        self_.f["shot_vector"], self_.f["total_shots"] = sv, tot
+        return None
+    wm.modular["Shots.__all_tuple_init__"] = mc_all_tuple_init_m
+
+    def mixed_terms(v):
+        shots = v.shots.term
+        return shots, v.comp_i, z3.Extract(shots, 0, v.comp_i)
+
+    def chk_inv(v):            # comp0: [valid_int(s) or valid_tuple(s) for s in shots]
+        shots, i, done = mixed_terms(v)
+        r = v.comp_r.term if isinstance(v.comp_r, SeqV) else z3.Empty(z3.SeqSort(z3.BoolSort()))
+        return And(ALLB(r) == OKI(done), z3.Length(r) == i, i >= 0, i <= z3.Length(shots))
+
+    ALLB = z3.Function("all_true", z3.SeqSort(z3.BoolSort()), z3.BoolSort())         # snoc-defined conjunction
+
+    def allb_defs(s, bv):
+        return [ALLB(z3.Empty(z3.SeqSort(z3.BoolSort()))), ALLB(z3.Concat(s, z3.Unit(bv))) == z3.And(ALLB(s), bv)]
+
+    def mixed_ax(v):
+        shots, i, done = mixed_terms(v)
+        out = [z3.Extract(shots, 0, 0) == z3.Empty(shots.sort())]
+        for k in (i - 1, i):
+            out.append(snoc_slice(shots, k))
+            out.append(z3.Implies(z3.And(k >= 0, k < z3.Length(shots)), z3.And(*item_defs(z3.Extract(shots, 0, k), shots[k]))))
+        r = v.comp_r.term if isinstance(v.comp_r, SeqV) else None
+        sn = split_snoc(r) if r is not None else None
+        if sn is not None:
+            if r.sort() == z3.SeqSort(z3.BoolSort()):
+                out += allb_defs(sn[0], sn[1])
+            else:
+                out += validp_def(sn[0], sn[1])
+        out += [ALLB(z3.Empty(z3.SeqSort(z3.BoolSort()))), VALID_P(z3.Empty(z3.SeqSort(PairS))), OKI(z3.Empty(shots.sort())),
+                NORM(z3.Empty(shots.sort())) == z3.Empty(z3.SeqSort(PairS))]
+        return out
+
+    def norm_inv(v):           # comp1: [s if isinstance(s, Sequence) else (s, 1) for s in shots]
+        shots, i, done = mixed_terms(v)
+        r = st(v.comp_r, PAIR)
+        return And(r == NORM(done), VALID_P(r) == OKI(done), z3.Length(r) == i, i >= 0, i <= z3.Length(shots))
+
+    def expand_mixed(v):
+        if isinstance(v, SeqV):
+            return EXP_P(NORM(v.term))
+        out = []
+        for x in v:
+            out += [x[0]] * x[1] if isinstance(x, (tuple, list)) else [x]
+        return out
+
+    def items_ok(v):
+        if isinstance(v, SeqV):
+            return OKI(v.term)
+        return all((isinstance(x, int) and not isinstance(x, bool) and x > 0) if not isinstance(x, (tuple, list))
+                   else (len(x) == 2 and all(isinstance(y, int) and y > 0 for y in x)) for x in v)
+
+    def mixed_ghost(ctx, a):
+        shots = a.shots.term
+        ctx.assume(z3.Extract(shots, 0, z3.Length(shots)) == shots)
+        # the all(...) of the code is a universally quantified formula over the BOOLEAN list built by comp0; ALLB is its snoc-defined form
+        # (ALLB(s) <=> every entry of s is true: induction lemma all-true below)
+
+    def native_items(data):
+        return [((int(x[1]), int(x[2])) if x[0] else int(x[1])) for x in data]
+
+    def mixed_native(mod, args):
+        args["shots"] = native_items(args["shots"])
+        args["self"] = mod.Shots(args["shots"])
+        return None
+
+    def mixed_gen(rng, m):
+        if rng is None:
+            return m
+        n = rng.choice([1, 1, 2, 3, 4, 5])
+        return dict(m, shots=[(rng.random() < 0.5, rng.choice([-1, 0, 1, 2, 2, 3, 5]) if rng.random() < 0.25 else rng.choice([1, 2, 2, 3]),
+                               rng.choice([0, 1, 1, 2, 3])) for _ in range(n)])
+    MIXED = SeqT(ITEM)
+    mixed_case = Case("shots:list-mixing-ints-and-pairs", {"self": fresh_self(), "shots": MIXED}, native_call=mixed_native, native_gen=mixed_gen,
+                      ghost=mixed_ghost, requires=lambda a: slen(a.shots) >= 1,
+                      loops={"comp0": LoopSpec(chk_inv, types={"comp_r": SeqT(Bool)}, axioms=mixed_ax),
+                             "comp1": LoopSpec(norm_inv, types={"comp_r": SeqT(PAIR)}, axioms=mixed_ax)},
+                      ensures=lambda o, r, nw: And(seq_eq(expand(nw.self.shot_vector), expand_mixed(o.shots)),
+                                                   nw.self.total_shots == total(expand_mixed(o.shots)), valid_out(nw.self.shot_vector), nw.self._frozen),
+                      raises={"ValueError": lambda o: Not(items_ok(o.shots))}, must_return=lambda o: items_ok(o.shots))
+    mixed_case.interp_cls = MInterp
+    contracts.append(FnContract(wm, "Shots.__init__", [mixed_case]))
+
+    # ---- num_copies == len(expand) ----------------------------------------------------------------------------------------------------
+    def sum_of_copies(it, args, kw):
+        """sum(s.copies for s in shot_vector): the left fold of + over the copies fields IS the snoc-defined COPIES"""
+        g = args[0]
+        from vf.pyvc.interp import SymGen
+        if isinstance(g, SymGen) and g.it.elem.kind == "rec" and it.same_term(S._t(g.val), cp_s(g.it.term[g.i])):
+            return COPIES(g.it.term)
+        return it.b_sum(args, kw, None) if not isinstance(g, (SymGen, SeqV)) else (_ for _ in ()).throw(Unsupp("sum over this generator"))
+    w4 = World(SHOTS, classes={"ShotCopies": {"shots": Int, "copies": Int},
+                               "Shots": {"total_shots": Int, "shot_vector": SeqT(SC, tuple=True), "_frozen": Bool}},
+               functions=[], extra_builtins={"math.is_abstract": lambda it, a, k: False, "sum": sum_of_copies})
+    HASH = z3.Function("hash_of_shot_vector", z3.SeqSort(SCs), z3.IntSort())       # hash(tuple): some function of the value
+    w4.extra_builtins["hash"] = lambda it, a, k: HASH(a[0].term)
+
+    def copies_len(sv):
+        """conclusion of the induction lemma copies-len"""
+        return z3.Implies(VALID(sv), COPIES(sv) == z3.Length(EXP_S(sv)))
+    contracts.append(FnContract(w4, "Shots.num_copies", [
+        Case("finite", {"self": FiniteShots}, ghost=lambda ctx, a: link_valid(ctx, a.self.shot_vector), requires=lambda a: wf(a.self),
+             ensures=lambda o, r, nw: r == slen(expand(o.self.shot_vector)),
+             axioms=lambda o, r, nw: [copies_len(o.self.shot_vector.term)]),
+        Case("analytic", {"self": AnalyticShots}, ensures=lambda o, r, nw: r == 0)]))
+    contracts.append(FnContract(w4, "Shots.__hash__", [
+        # the hash is a function of the shot vector alone: equal objects (see __eq__) have equal hashes by congruence
+        Case("finite", {"self": FiniteShots}, requires=lambda a: wf(a.self),
+             ensures=lambda o, r, nw: (r == HASH(o.self.shot_vector.term)) if isinstance(o.self, Rec) else
+             (r == hash(tuple(o.self.shot_vector)) and all(hash(nw.self) == hash(x) for x in [type(nw.self)(list(o.self.shot_vector))])))]))
 
     def expand_sc_of(v):
         return EXP_S(v) if isinstance(v, z3.ExprRef) else [x[0] for x in v for _ in range(x[1])]
@@ -578,6 +881,18 @@ def build(tier, seed):
           z3.Implies(z3.And(a >= 0, a < z3.Length(Pa)), z3.Concat(Pa, z3.Unit(pe))[a] == Pa[a]),
           z3.Concat(Pa, z3.Unit(pe))[z3.Length(Pa)] == pe] + validp_def(Pa, pe)),
         ("seq/nth-of-concat", [a], nth_concat(Sa, Sb, a), []),
+        # elementwise validity => VALID, by induction on s (snoc)
+        ("elementwise-valid/base", [], VALID(z3.Empty(z3.SeqSort(SCs))), valid_def(Sa, e)),
+        ("elementwise-valid/step", [], z3.Implies(valid_seq(SeqV(z3.Concat(Sa, z3.Unit(e)), SC)), VALID(z3.Concat(Sa, z3.Unit(e)))),
+         [z3.Implies(valid_seq(SeqV(Sa, SC)), VALID(Sa)), z3.Concat(Sa, z3.Unit(e))[z3.Length(Sa)] == e,
+          z3.ForAll([a], z3.Implies(z3.And(a >= 0, a < z3.Length(Sa)), z3.Concat(Sa, z3.Unit(e))[a] == Sa[a]))] + valid_def(Sa, e)),
+        # COPIES(s) == len(expand(s)) for valid s, by induction on s (snoc)
+        ("copies-len/base", [], COPIES(z3.Empty(z3.SeqSort(SCs))) == z3.Length(EXP_S(z3.Empty(z3.SeqSort(SCs)))),
+         copies_def(Sa, e) + exp_def(EXP_S, Sa, e, (sh_s, cp_s))),
+        ("copies-len/step", [], copies_len(z3.Concat(Sa, z3.Unit(e))),
+         [copies_len(Sa), len_rep(sh_s(e), cp_s(e))] + copies_def(Sa, e) + exp_def(EXP_S, Sa, e, (sh_s, cp_s)) + valid_def(Sa, e)),
+        # equal objects have equal hashes: __eq__ (contract: equal shot vectors) and __hash__ (contract: a function of the shot vector)
+        ("eq-implies-equal-hash", [], z3.Implies(Sa == Sb, HASH(Sa) == HASH(Sb)), []),
         ("seq/nth-of-snoc", [a], z3.And(z3.Implies(z3.And(a >= 0, a < z3.Length(Sa)), z3.Concat(Sa, z3.Unit(e))[a] == Sa[a]),
                                         z3.Concat(Sa, z3.Unit(e))[z3.Length(Sa)] == e), []),
     ]
@@ -586,8 +901,9 @@ def build(tier, seed):
             if cs.native_gen is None:
                 cs.native_gen = repair
         plan.fn_under_contract(fc.world.file, fc.qualname)
-        for ob in obligations_for("C44", fc, tier):
-            plan.add(ob)
+        for ob, cs in zip(obligations_for("C44", fc, tier), fc.cases):
+            # the deepening contracts fall back to their bounded stand-in when an edit takes the function out of reach (DESIGN 2.6)
+            plan.add(with_standin(ob, fc, cs, tries=600, budget_s=25) if fc.world is not w else ob)
     for nm, vs, goal, assm in lems:
         plan.add(lemma("C44", nm, vs, goal, assumptions=assm))
     plan.size_bounds = ["Shots.__mul__: shot vectors with 1, 2 or 3 entries (all values of shots, copies and of the scalar); "
